@@ -88,9 +88,16 @@ func tkey(t types.Type) string {
 		e["name"] = k
 		e["underlying"] = tkey(tt.Underlying())
 	case *types.Alias:
+		// an alias may print like its target (`any` is interface{}): never let an entry point at itself
+		delete(typeTable, k)
+		u := tkey(types.Unalias(tt))
+		if u == k {
+			return k
+		}
 		e["kind"] = "named"
 		e["name"] = k
-		e["underlying"] = tkey(types.Unalias(tt).Underlying())
+		e["underlying"] = u
+		typeTable[k] = e
 	case *types.Interface:
 		e["kind"] = "iface"
 		ms := []string{}
